@@ -111,21 +111,21 @@ SPECS["C20"] = {
 
 # --- map / set ---------------------------------------------------------------
 SPECS["C04"] = {
-    "quick": [F("maptree", MA + ",o_ref"), F("maptree", MA + ",o_ref", pay="heap", hint=0, sizes="9,17,33,65"), M("maptree", 6, MA + ",o_ref"), M("maptree", 4, MAW + ",o_ref", pay="heap", hint=0), M("maptree", 4, MAW + ",o_ref", hint=1),
+    "quick": [M("maptree", 5, MAW + ",o_ref", pay="track"), F("maptree", MA + ",o_ref", pay="track", sizes="9,17,33"), F("maptree", MA + ",o_ref"), F("maptree", MA + ",o_ref", pay="heap", hint=0, sizes="9,17,33,65"), M("maptree", 6, MA + ",o_ref"), M("maptree", 4, MAW + ",o_ref", pay="heap", hint=0), M("maptree", 4, MAW + ",o_ref", hint=1),
               M("maptree", 10, "del,clear,o_ref", mode="shape"), M("maptree", 10, "del,clear,o_ref", mode="shape", hint=9), M("maptree", 3, MA + ",o_ref", mode="full"), M("maptree", 3, MAW + ",o_ref", hint=64)],
-    "thorough": [F("maptree", MA + ",o_ref"), F("maptree", MA + ",o_ref", pay="heap", hint=0, sizes="9,17,33,65"), M("maptree", 7, MA + ",o_ref"), M("maptree", 6, MA + ",o_ref", pay="heap", hint=0), M("maptree", 5, MAW + ",o_ref", hint=1),
+    "thorough": [M("maptree", 5, MAW + ",o_ref", pay="track"), F("maptree", MA + ",o_ref", pay="track", sizes="9,17,33"), F("maptree", MA + ",o_ref"), F("maptree", MA + ",o_ref", pay="heap", hint=0, sizes="9,17,33,65"), M("maptree", 7, MA + ",o_ref"), M("maptree", 6, MA + ",o_ref", pay="heap", hint=0), M("maptree", 5, MAW + ",o_ref", hint=1),
                  M("maptree", 12, "del,clear,o_ref", mode="shape"), M("maptree", 12, "del,clear,o_ref", mode="shape", hint=9), M("maptree", 4, "del,clear,o_ref", mode="full", max_states=30000000, cap_s=1200), M("maptree", 5, MAW + ",o_ref", hint=64)],
 }
 SPECS["C05"] = {
-    "quick": [F("settree", MA + ",o_ref"), F("settree", MA + ",o_ref", pay="heap", hint=0, sizes="9,17,33,65"), M("settree", 6, MA + ",o_ref"), M("settree", 4, MAW + ",o_ref", pay="heap", hint=0), M("settree", 6, MA + ",o_ref", pay="bare", hint=1),
+    "quick": [M("settree", 5, MAW + ",o_ref", pay="track"), F("settree", MA + ",o_ref", pay="track", sizes="9,17,33"), F("settree", MA + ",o_ref"), F("settree", MA + ",o_ref", pay="heap", hint=0, sizes="9,17,33,65"), M("settree", 6, MA + ",o_ref"), M("settree", 4, MAW + ",o_ref", pay="heap", hint=0), M("settree", 6, MA + ",o_ref", pay="bare", hint=1),
               M("settree", 10, "del,clear,o_ref", mode="shape"), M("settree", 3, MA + ",o_ref", mode="full")],
-    "thorough": [F("settree", MA + ",o_ref"), F("settree", MA + ",o_ref", pay="heap", hint=0, sizes="9,17,33,65"), M("settree", 7, MA + ",o_ref"), M("settree", 6, MA + ",o_ref", pay="heap", hint=0), M("settree", 6, MA + ",o_ref", pay="bare", hint=1), M("settree", 5, MAW + ",o_ref", hint=64),
+    "thorough": [M("settree", 5, MAW + ",o_ref", pay="track"), F("settree", MA + ",o_ref", pay="track", sizes="9,17,33"), F("settree", MA + ",o_ref"), F("settree", MA + ",o_ref", pay="heap", hint=0, sizes="9,17,33,65"), M("settree", 7, MA + ",o_ref"), M("settree", 6, MA + ",o_ref", pay="heap", hint=0), M("settree", 6, MA + ",o_ref", pay="bare", hint=1), M("settree", 5, MAW + ",o_ref", hint=64),
                  M("settree", 12, "del,clear,o_ref", mode="shape", hint=9), M("settree", 4, "del,clear,o_ref", mode="full", max_states=30000000, cap_s=1200)],
 }
 SPECS["C08"] = {
-    "quick": [F("maptree", MA + ",o_handle"), F("settree", MA + ",o_handle"), M("maptree", 6, MA + ",o_handle"), M("settree", 6, MA + ",o_handle"), M("maptree", 4, MAW + ",o_handle,o_ref", pay="heap"), M("settree", 4, MAW + ",o_handle,o_ref"),
+    "quick": [M("settree", 4, MAW + ",o_handle,o_ref", pay="track"), F("maptree", MA + ",o_handle"), F("settree", MA + ",o_handle"), M("maptree", 6, MA + ",o_handle"), M("settree", 6, MA + ",o_handle"), M("maptree", 4, MAW + ",o_handle,o_ref", pay="heap"), M("settree", 4, MAW + ",o_handle,o_ref"),
               M("maptree", 10, "delh,clear,o_handle", mode="shape"), M("settree", 10, "delh,clear,o_handle", mode="shape", hint=9)],
-    "thorough": [F("maptree", MA + ",o_handle"), F("settree", MA + ",o_handle"), M("maptree", 7, MA + ",o_handle"), M("settree", 7, MA + ",o_handle"), M("maptree", 5, MAW + ",o_handle,o_ref", pay="heap"), M("settree", 5, MAW + ",o_handle,o_ref"),
+    "thorough": [M("settree", 4, MAW + ",o_handle,o_ref", pay="track"), F("maptree", MA + ",o_handle"), F("settree", MA + ",o_handle"), M("maptree", 7, MA + ",o_handle"), M("settree", 7, MA + ",o_handle"), M("maptree", 5, MAW + ",o_handle,o_ref", pay="heap"), M("settree", 5, MAW + ",o_handle,o_ref"),
                  M("maptree", 12, "delh,clear,o_handle", mode="shape"), M("settree", 12, "delh,clear,o_handle", mode="shape", hint=9)],
 }
 SPECS["C09"] = {
@@ -152,24 +152,24 @@ SPECS["C11"] = {
                  K("ktree", 9, 1, "fleby,clear,o_arena", mode="shape", hint=9, cap_s=900), M("settree", 6, MA + ",o_arena", hint=64), K("ktree", 4, 3, KA + ",o_arena", hint=64)],
 }
 SPECS["C12"] = {
-    "quick": [FS(0, 31, "o_query,o_twin"), FS(-7, 92, "o_query,o_twin"), K("klist", 3, 3, KA + ",o_twin,o_pred", tbase=252), K("ktree", 3, 3, KA + ",o_twin,o_pred", tbase=252), K("ktree", 4, 2, KA + ",o_twin,o_pred"), M("maptree", 4, MA + ",o_twin,o_ref,o_handle"), M("settree", 4, MA + ",o_twin,o_ref,o_handle"), M("maplist", 4, MA + ",o_twin,o_ref,o_handle"), M("setlist", 4, MA + ",o_twin,o_ref,o_handle"),
+    "quick": [F("maptree", MA + ",o_twin,o_ref,o_handle"), F("settree", MA + ",o_twin,o_ref,o_handle", hint=9), F("maplist", MA + ",o_twin,o_ref,o_handle", sizes="9,17,33,65"), F("setlist", MA + ",o_twin,o_ref,o_handle", sizes="9,17,33,65"), F("ktree", "fl,fle,fleby,get,o_twin,o_pred"), F("klist", "fl,fle,fleby,get,o_twin,o_pred"), FS(0, 31, "o_query,o_twin"), FS(-7, 92, "o_query,o_twin"), K("klist", 3, 3, KA + ",o_twin,o_pred", tbase=252), K("ktree", 3, 3, KA + ",o_twin,o_pred", tbase=252), K("ktree", 4, 2, KA + ",o_twin,o_pred"), M("maptree", 4, MA + ",o_twin,o_ref,o_handle"), M("settree", 4, MA + ",o_twin,o_ref,o_handle"), M("maplist", 4, MA + ",o_twin,o_ref,o_handle"), M("setlist", 4, MA + ",o_twin,o_ref,o_handle"),
               K("ktree", 3, 2, KA + ",o_twin,o_pred"), K("klist", 3, 2, KA + ",o_twin,o_pred"), S(0, 31, SA + ",o_twin,o_query"), S(-7, 92, SA + ",o_twin,o_query"),
               M("maptree", 10, "del,clear,o_twin,o_ref", mode="shape"), M("settree", 10, "del,clear,o_twin,o_ref", mode="shape", hint=9), K("ktree", 8, 0, "fleby,clear,o_twin,o_pred", mode="shape")],
-    "thorough": [FS(0, 31, "o_query,o_twin"), FS(-7, 92, "o_query,o_twin"), K("klist", 3, 3, KA + ",o_twin,o_pred", tbase=252), K("ktree", 3, 3, KA + ",o_twin,o_pred", tbase=252), M("maptree", 6, MA + ",o_twin,o_ref,o_handle"), M("settree", 6, MA + ",o_twin,o_ref,o_handle"), M("maplist", 6, MAW + ",o_twin,o_ref,o_handle"), M("setlist", 6, MAW + ",o_twin,o_ref,o_handle"),
+    "thorough": [F("maptree", MA + ",o_twin,o_ref,o_handle"), F("settree", MA + ",o_twin,o_ref,o_handle", hint=9), F("maplist", MA + ",o_twin,o_ref,o_handle", sizes="9,17,33,65"), F("setlist", MA + ",o_twin,o_ref,o_handle", sizes="9,17,33,65"), F("ktree", "fl,fle,fleby,get,o_twin,o_pred"), F("klist", "fl,fle,fleby,get,o_twin,o_pred"), FS(0, 31, "o_query,o_twin"), FS(-7, 92, "o_query,o_twin"), K("klist", 3, 3, KA + ",o_twin,o_pred", tbase=252), K("ktree", 3, 3, KA + ",o_twin,o_pred", tbase=252), M("maptree", 6, MA + ",o_twin,o_ref,o_handle"), M("settree", 6, MA + ",o_twin,o_ref,o_handle"), M("maplist", 6, MAW + ",o_twin,o_ref,o_handle"), M("setlist", 6, MAW + ",o_twin,o_ref,o_handle"),
                  K("ktree", 4, 3, KA + ",o_twin,o_pred"), K("klist", 4, 4, KA + ",o_twin,o_pred"), S(0, 31, SA + ",o_twin,o_query", pop=3, cap_s=900), S(-7, 92, SA + ",o_twin,o_query"), S(0, 16, SA + ",o_twin,o_query"),
                  M("maptree", 12, "del,clear,o_twin,o_ref", mode="shape"), M("settree", 12, "del,clear,o_twin,o_ref", mode="shape", hint=9), K("ktree", 9, 1, "fleby,clear,o_twin,o_pred", mode="shape", cap_s=900)],
 }
 LISTS_M = MAW + ",o_ref,o_handle,o_pos,o_rb,o_neigh"
 LISTS_K = KA + ",o_pred,o_get,o_export,o_log,o_rb"
 SPECS["C13"] = {
-    "quick": [K("klist", 3, 3, LISTS_K, tbase=252), K("klist", 4, 3, LISTS_K + ",o_twin", tbase=251), F("maplist", LISTS_M, sizes="9,17,33,65"), F("setlist", LISTS_M, sizes="9,17,33,65"), F("klist", "fl,fle,fleby,get,o_pred,o_get,o_export,o_log,o_rb"), K("klist", 4, 3, LISTS_K, tbase=251), M("maplist", 6, LISTS_M), M("setlist", 6, LISTS_M), M("maplist", 5, LISTS_M, pay="heap", hint=0), K("klist", 4, 4, LISTS_K), K("klist", 3, 3, LISTS_K, hint=0)],
-    "thorough": [K("klist", 3, 3, LISTS_K, tbase=252), K("klist", 4, 3, LISTS_K + ",o_twin", tbase=251), F("maplist", LISTS_M, sizes="9,17,33,65"), F("setlist", LISTS_M, sizes="9,17,33,65"), F("klist", "fl,fle,fleby,get,o_pred,o_get,o_export,o_log,o_rb"), M("maplist", 8, LISTS_M), M("setlist", 8, LISTS_M), M("setlist", 6, LISTS_M, pay="heap", hint=0), K("klist", 5, 4, LISTS_K, cap_s=900), K("klist", 4, 5, LISTS_K)],
+    "quick": [M("maplist", 5, LISTS_M, pay="track"), M("setlist", 5, LISTS_M, pay="track"), K("klist", 3, 3, LISTS_K, tbase=252), K("klist", 4, 3, LISTS_K + ",o_twin", tbase=251), F("maplist", LISTS_M, sizes="9,17,33,65"), F("setlist", LISTS_M, sizes="9,17,33,65"), F("klist", "fl,fle,fleby,get,o_pred,o_get,o_export,o_log,o_rb"), K("klist", 4, 3, LISTS_K, tbase=251), M("maplist", 6, LISTS_M), M("setlist", 6, LISTS_M), M("maplist", 5, LISTS_M, pay="heap", hint=0), K("klist", 4, 4, LISTS_K), K("klist", 3, 3, LISTS_K, hint=0)],
+    "thorough": [M("maplist", 5, LISTS_M, pay="track"), M("setlist", 5, LISTS_M, pay="track"), K("klist", 3, 3, LISTS_K, tbase=252), K("klist", 4, 3, LISTS_K + ",o_twin", tbase=251), F("maplist", LISTS_M, sizes="9,17,33,65"), F("setlist", LISTS_M, sizes="9,17,33,65"), F("klist", "fl,fle,fleby,get,o_pred,o_get,o_export,o_log,o_rb"), M("maplist", 8, LISTS_M), M("setlist", 8, LISTS_M), M("setlist", 6, LISTS_M, pay="heap", hint=0), K("klist", 5, 4, LISTS_K, cap_s=900), K("klist", 4, 5, LISTS_K)],
 }
 
 # --- segment tree --------------------------------------------------------------
 SPECS["C03"] = {
-    "quick": [FS(0, 31, "o_query"), FS(-7, 92, "o_query"), FS(0, 16, "o_query"), SW("pairs", "sequential", emax=2, t=2)] + [SW("dpairs", lo=lo, hi=hi) for (lo, hi) in [(0, 16), (5, 37), (0, 63), (-7, 92), (0, 128)]] + [S(lo, hi, SA + ",o_query") for (lo, hi) in DOMAINS_Q],
-    "thorough": [FS(0, 31, "o_query"), FS(-7, 92, "o_query"), FS(0, 16, "o_query"), SW("pairs", "sequential", emax=3, t=3)] + [SW("dpairs", lo=lo, hi=hi) for (lo, hi) in [(0, 16), (5, 37), (0, 63), (-7, 92), (0, 128), (-100, 99), (-2147483648, -2147483648 + 150), (2147483647 - 199, 2147483647)]] + [S(lo, hi, SA + ",o_query") for (lo, hi) in DOMAINS_T[:-1]] + [S(-(1 << 31), (1 << 31) - 1, SA + ",o_query", coord="i64"), S(0, (1 << 32) - 1, SA + ",o_query", coord="u32"),
+    "quick": [S(-(1 << 40), (1 << 40) + 5, SA + ",o_query", coord="i64"), FS(-(1 << 40), (1 << 40) + 5, "o_query", coord="i64"), S(0, (1 << 32) + 77, SA + ",o_query", coord="i64"), FS(0, 31, "o_query"), FS(-7, 92, "o_query"), FS(0, 16, "o_query"), SW("pairs", "sequential", emax=2, t=2)] + [SW("dpairs", lo=lo, hi=hi) for (lo, hi) in [(0, 16), (5, 37), (0, 63), (-7, 92), (0, 128)]] + [S(lo, hi, SA + ",o_query") for (lo, hi) in DOMAINS_Q],
+    "thorough": [S(-(1 << 40), (1 << 40) + 5, SA + ",o_query", coord="i64"), FS(-(1 << 40), (1 << 40) + 5, "o_query", coord="i64"), S(0, (1 << 32) + 77, SA + ",o_query", coord="i64"), FS(0, 31, "o_query"), FS(-7, 92, "o_query"), FS(0, 16, "o_query"), SW("pairs", "sequential", emax=3, t=3)] + [SW("dpairs", lo=lo, hi=hi) for (lo, hi) in [(0, 16), (5, 37), (0, 63), (-7, 92), (0, 128), (-100, 99), (-2147483648, -2147483648 + 150), (2147483647 - 199, 2147483647)]] + [S(lo, hi, SA + ",o_query") for (lo, hi) in DOMAINS_T[:-1]] + [S(-(1 << 31), (1 << 31) - 1, SA + ",o_query", coord="i64"), S(0, (1 << 32) - 1, SA + ",o_query", coord="u32"),
                  S(0, 31, SA + ",o_query", pop=3, cap_s=1200), S(-7, 92, SA + ",o_query", pop=3, cap_s=1200)],
 }
 SPECS["C14"] = {
@@ -181,17 +181,17 @@ SPECS["C15"] = {
     "thorough": [SW("pairs", "o_place,sequential", emax=1, t=1)],
 }
 SPECS["C16"] = {
-    "quick": [FS(0, 31, "o_purge"), FS(-7, 92, "o_purge"), SW("purge", "subranges"), S(0, 31, "clear,o_purge"), S(-7, 92, "clear,o_purge")],
-    "thorough": [FS(0, 31, "o_purge"), FS(-7, 92, "o_purge"), SW("purge", "subranges")] + [S(lo, hi, "clear,restart,o_purge") for (lo, hi) in DOMAINS_T] + [S(0, 31, "clear,o_purge", pop=3, cap_s=1200)],
+    "quick": [S(-(1 << 40), (1 << 40) + 5, "clear,o_purge", coord="i64"), FS(0, 31, "o_purge"), FS(-7, 92, "o_purge"), SW("purge", "subranges"), S(0, 31, "clear,o_purge"), S(-7, 92, "clear,o_purge")],
+    "thorough": [S(-(1 << 40), (1 << 40) + 5, "clear,o_purge", coord="i64"), FS(0, 31, "o_purge"), FS(-7, 92, "o_purge"), SW("purge", "subranges")] + [S(lo, hi, "clear,restart,o_purge") for (lo, hi) in DOMAINS_T] + [S(0, 31, "clear,o_purge", pop=3, cap_s=1200)],
 }
 
 # --- cross-cutting ---------------------------------------------------------------
 INJ_M = MAW + ",o_ref,o_handle,o_rb,o_arena"
 INJ_K = KA + ",o_pred,o_rb,o_arena"
 SPECS["C18"] = {
-    "quick": [K("ktree", 8, 0, "fleby,clear,o_pred,o_rb,o_arena", mode="shape", inject=1), FS(0, 31, "o_query,o_struct", inject=1), FS(-7, 92, "o_query,o_struct", inject=1), F("maptree", INJ_M, sizes="9,16,17", inject=1), F("settree", INJ_M, sizes="9,16,17", inject=1), F("maplist", INJ_M, sizes="9,17", inject=1), F("setlist", INJ_M, sizes="9,17", inject=1), F("ktree", "fl,fle,fleby,get,o_pred,o_rb,o_arena", sizes="9,16,17", inject=1), F("klist", "fl,fle,fleby,get,o_pred,o_rb", sizes="9,17", inject=1), K("ktree", 4, 1, INJ_K, inject=1), M("maptree", 4, INJ_M, inject=1), M("settree", 4, INJ_M, inject=1), M("maplist", 4, INJ_M, inject=1), M("setlist", 4, INJ_M, inject=1),
+    "quick": [M("maptree", 4, INJ_M, pay="track", inject=1), M("settree", 4, INJ_M, pay="track", inject=1), K("ktree", 8, 0, "fleby,clear,o_pred,o_rb,o_arena", mode="shape", inject=1), FS(0, 31, "o_query,o_struct", inject=1), FS(-7, 92, "o_query,o_struct", inject=1), F("maptree", INJ_M, sizes="9,16,17", inject=1), F("settree", INJ_M, sizes="9,16,17", inject=1), F("maplist", INJ_M, sizes="9,17", inject=1), F("setlist", INJ_M, sizes="9,17", inject=1), F("ktree", "fl,fle,fleby,get,o_pred,o_rb,o_arena", sizes="9,16,17", inject=1), F("klist", "fl,fle,fleby,get,o_pred,o_rb", sizes="9,17", inject=1), K("ktree", 4, 1, INJ_K, inject=1), M("maptree", 4, INJ_M, inject=1), M("settree", 4, INJ_M, inject=1), M("maplist", 4, INJ_M, inject=1), M("setlist", 4, INJ_M, inject=1),
               K("ktree", 3, 2, INJ_K, inject=1), K("klist", 3, 2, INJ_K, inject=1), S(0, 31, SA + ",o_query,o_struct", inject=1), S(-7, 92, SA + ",o_query,o_struct", inject=1)],
-    "thorough": [FS(0, 31, "o_query,o_struct", inject=1), FS(-7, 92, "o_query,o_struct", inject=1), F("maptree", INJ_M, sizes="9,16,17", inject=1), F("settree", INJ_M, sizes="9,16,17", inject=1), F("maplist", INJ_M, sizes="9,17", inject=1), F("setlist", INJ_M, sizes="9,17", inject=1), F("ktree", "fl,fle,fleby,get,o_pred,o_rb,o_arena", sizes="9,16,17", inject=1), F("klist", "fl,fle,fleby,get,o_pred,o_rb", sizes="9,17", inject=1), M("maptree", 5, INJ_M, inject=1), M("settree", 5, INJ_M, inject=1), M("maptree", 4, MA + ",o_ref,o_handle,o_rb,o_arena", inject=2), M("settree", 4, MA + ",o_ref,o_handle,o_rb,o_arena", inject=2),
+    "thorough": [M("maptree", 4, INJ_M, pay="track", inject=1), M("settree", 4, INJ_M, pay="track", inject=1), FS(0, 31, "o_query,o_struct", inject=1), FS(-7, 92, "o_query,o_struct", inject=1), F("maptree", INJ_M, sizes="9,16,17", inject=1), F("settree", INJ_M, sizes="9,16,17", inject=1), F("maplist", INJ_M, sizes="9,17", inject=1), F("setlist", INJ_M, sizes="9,17", inject=1), F("ktree", "fl,fle,fleby,get,o_pred,o_rb,o_arena", sizes="9,16,17", inject=1), F("klist", "fl,fle,fleby,get,o_pred,o_rb", sizes="9,17", inject=1), M("maptree", 5, INJ_M, inject=1), M("settree", 5, INJ_M, inject=1), M("maptree", 4, MA + ",o_ref,o_handle,o_rb,o_arena", inject=2), M("settree", 4, MA + ",o_ref,o_handle,o_rb,o_arena", inject=2),
                  M("maplist", 5, INJ_M, inject=2), M("setlist", 5, INJ_M, inject=2), M("maptree", 4, INJ_M, pay="heap", inject=1),
                  K("ktree", 3, 3, INJ_K, inject=1), K("ktree", 3, 2, INJ_K, inject=2, cap_s=1200), K("klist", 3, 3, INJ_K, inject=2), K("ktree", 8, 0, "fleby,clear,o_pred,o_rb,o_arena", mode="shape", inject=1, cap_s=900),
                  S(0, 31, SA + ",o_query,o_struct", inject=2, cap_s=1200), S(-7, 92, SA + ",o_query,o_struct", inject=1), S(0, 16, SA + ",o_query,o_struct", inject=1)],
@@ -199,13 +199,13 @@ SPECS["C18"] = {
 ALL_M = MAW + ",o_ref,o_handle,o_neigh,o_hstab"
 ALL_K = KA + ",o_pred,o_get,o_export"
 SPECS["C10"] = {
-    "quick": [FS(0, 31, "o_query", crash=1), FS(-1000, 3095, "o_query", crash=1), K("ktree", 3, 3, ALL_K, crash=1, tbase=252), K("klist", 3, 3, ALL_K, crash=1, tbase=252), F("maptree", ALL_M, crash=1), F("settree", ALL_M, crash=1), F("ktree", "fl,fle,fleby,get,o_pred,o_get,o_export", crash=1), K("ktree", 3, 3, ALL_K, crash=1, tbase=251), K("klist", 3, 3, ALL_K, crash=1, tbase=251), K("ktree", 4, 2, ALL_K, crash=1), M("maptree", 5, ALL_M, crash=1), M("settree", 5, ALL_M, crash=1), M("maplist", 5, ALL_M, crash=1), M("setlist", 5, ALL_M, crash=1),
+    "quick": [M("maptree", 4, ALL_M, crash=1, pay="track"), M("settree", 4, ALL_M, crash=1, pay="track"), FS(0, 31, "o_query", crash=1), FS(-1000, 3095, "o_query", crash=1), K("ktree", 3, 3, ALL_K, crash=1, tbase=252), K("klist", 3, 3, ALL_K, crash=1, tbase=252), F("maptree", ALL_M, crash=1), F("settree", ALL_M, crash=1), F("ktree", "fl,fle,fleby,get,o_pred,o_get,o_export", crash=1), K("ktree", 3, 3, ALL_K, crash=1, tbase=251), K("klist", 3, 3, ALL_K, crash=1, tbase=251), K("ktree", 4, 2, ALL_K, crash=1), M("maptree", 5, ALL_M, crash=1), M("settree", 5, ALL_M, crash=1), M("maplist", 5, ALL_M, crash=1), M("setlist", 5, ALL_M, crash=1),
               M("maptree", 4, ALL_M, crash=1, hint=0, pay="heap"), M("settree", 4, ALL_M, crash=1, hint=1, pay="bare"), M("maptree", 10, "del,delh,clear,o_handle", mode="shape", crash=1, hint=9), M("settree", 10, "del,delh,clear,o_neigh", mode="shape", crash=1, hint=9), M("settree", 3, ALL_M, crash=1, hint=64),
               K("ktree", 3, 3, ALL_K, crash=1), K("klist", 3, 3, ALL_K, crash=1), K("ktree", 3, 2, ALL_K, crash=1, hint=0), K("ktree", 3, 2, ALL_K, crash=1, hint=64), K("ktree", 8, 0, "fleby,get,clear,o_export", mode="shape", crash=1, hint=9),
               S(0, 16, SA + ",o_query", crash=1), S(0, 31, SA + ",o_query", crash=1), S(-7, 92, SA + ",o_query", crash=1), S(-(1 << 31), (1 << 31) - 1, SA + ",o_query", crash=1),
               SW("layout", lmax=600, all_coords=600, label="layout sweep (constructor and edge coordinates, process outcome only)"), SW("dpairs", lo=0, hi=128, label="all insert x query range pairs on [0,128] (process outcome)"),
               SW("niche", type="key", label="KeyExpTree::new with a key type that has no all-zero value"), SW("niche", type="val", label="KeyExpTree::new with a value type that has no all-zero value"), SW("niche", type="list", label="KeyExpList with the same key type")],
-    "thorough": [FS(0, 31, "o_query", crash=1), FS(-1000, 3095, "o_query", crash=1), K("ktree", 3, 3, ALL_K, crash=1, tbase=252), K("klist", 3, 3, ALL_K, crash=1, tbase=252), F("maptree", ALL_M, crash=1), F("settree", ALL_M, crash=1), F("ktree", "fl,fle,fleby,get,o_pred,o_get,o_export", crash=1), M("maptree", 7, MA + ",o_ref,o_handle,o_hstab", crash=1), M("settree", 7, MA + ",o_ref,o_handle,o_neigh,o_hstab", crash=1), M("maplist", 7, ALL_M, crash=1), M("setlist", 7, ALL_M, crash=1),
+    "thorough": [M("maptree", 4, ALL_M, crash=1, pay="track"), M("settree", 4, ALL_M, crash=1, pay="track"), FS(0, 31, "o_query", crash=1), FS(-1000, 3095, "o_query", crash=1), K("ktree", 3, 3, ALL_K, crash=1, tbase=252), K("klist", 3, 3, ALL_K, crash=1, tbase=252), F("maptree", ALL_M, crash=1), F("settree", ALL_M, crash=1), F("ktree", "fl,fle,fleby,get,o_pred,o_get,o_export", crash=1), M("maptree", 7, MA + ",o_ref,o_handle,o_hstab", crash=1), M("settree", 7, MA + ",o_ref,o_handle,o_neigh,o_hstab", crash=1), M("maplist", 7, ALL_M, crash=1), M("setlist", 7, ALL_M, crash=1),
                  M("maptree", 5, ALL_M, crash=1, hint=0, pay="heap"), M("settree", 6, ALL_M, crash=1, hint=1, pay="bare"), M("maptree", 12, "del,delh,clear,o_handle", mode="shape", crash=1, hint=9), M("settree", 12, "del,delh,clear,o_neigh", mode="shape", crash=1, hint=9), M("settree", 5, ALL_M, crash=1, hint=64),
                  K("ktree", 4, 4, ALL_K, crash=1, cap_s=1200), K("klist", 4, 4, ALL_K, crash=1), K("ktree", 4, 3, ALL_K, crash=1, hint=0), K("ktree", 3, 3, ALL_K, crash=1, mode="full"), K("ktree", 9, 1, "fleby,get,clear,o_export", mode="shape", crash=1, hint=9, cap_s=900),
                  ] + [S(lo, hi, SA + ",o_query", crash=1) for (lo, hi) in DOMAINS_T] + [S(0, (1 << 32) - 1, SA + ",o_query", crash=1, coord="u32"), S(-(1 << 40), (1 << 40) + 5, SA + ",o_query", crash=1, coord="i64"),
